@@ -38,6 +38,10 @@ def _shared_condition(rng):
     return {"gsc": gsc, "prior_tree": True, "prior_gsc": True, "nlev": int(rng.choice([2, 2, 3])), "lsc": {1: lsc, 2: lsc}, "cutoff": None}
 
 
+def _precision_nan(rng):
+    return {"gsc": {"kind": "SingularProblemPrecisionReached", "precision": float(rng.choice([0.5, 5.0, 50.0]))}, "maximize": False, "cutoff": None, "precision_wrapper": None}
+
+
 def run(ctx):
     return [
         refine.refine_batch(ctx, ctx.size(120, 1500), force=shaped, pid=PID, name="trace-refinement(Tree.step vs DemeTree.run)"),
@@ -49,6 +53,9 @@ def run(ctx):
         # very object): an evaluation-limit condition answers for the tree it is asked about
         refine.refine_batch(ctx, ctx.size(30, 300), salt=67, force=_shared_condition, pid=PID, name="trace-refinement(one stop-condition object, two trees)"),
         runs.monitor_batch(ctx, PID, ctx.size(40, 400), salt=69, name="traced-runs-monitor-C05(one stop-condition object, two trees)", force=_shared_condition),
+        # the shipped precision stop condition on an objective with NaN holes: it holds from the first answer within
+        # the precision on, whatever else (NaN included) is answered before or after
+        runs.nan_monitor_batch(ctx, PID, ctx.size(30, 300), salt=59, name="traced-runs-monitor-C05(precision stop condition, objective with NaN holes)", force=_precision_nan, keep_precision=True),
     ]
 
 
